@@ -32,6 +32,13 @@
 #include "urcu-die.h"
 #include "urcu-wait.h"
 #include "urcu-utils.h"
+#ifdef URCU_VERIF
+#include <urcu/verif.h>
+#else
+#ifndef urcu_verif_point
+#define urcu_verif_point(id, ctx) do { } while (0)
+#endif
+#endif
 
 #define URCU_API_MAP
 /* Do not #define _LGPL_SOURCE to ensure we can emit the wrapper symbols */
@@ -62,7 +69,9 @@ struct urcu_gp urcu_qsbr_gp = { .ctr = URCU_QSBR_GP_ONLINE };
 /*
  * Active attempts to check for reader Q.S. before calling futex().
  */
+#ifndef RCU_QS_ACTIVE_ATTEMPTS
 #define RCU_QS_ACTIVE_ATTEMPTS 100
+#endif
 
 /*
  * Written to only by each individual reader. Read by both the reader and the
@@ -111,6 +120,7 @@ static void wait_gp(void)
 {
 	/* Read reader_gp before read futex */
 	cmm_smp_rmb();
+	urcu_verif_point(URCU_VP_GP_PRE_SLEEP, &urcu_qsbr_gp);
 	while (uatomic_load(&urcu_qsbr_gp.futex) == -1) {
 		if (!futex_noasync(&urcu_qsbr_gp.futex, FUTEX_WAIT, -1, NULL, NULL, 0)) {
 			/*
@@ -170,6 +180,7 @@ static void wait_for_readers(struct cds_list_head *input_readers,
 			/* Write futex before read reader_gp */
 			cmm_smp_mb();
 		}
+		urcu_verif_point(URCU_VP_GP_SCAN_AFTER_DEC, input_readers);
 		cds_list_for_each_entry_safe(index, tmp, input_readers, node) {
 			switch (urcu_qsbr_reader_state(&index->ctr, group)) {
 			case URCU_READER_ACTIVE_CURRENT:
@@ -183,6 +194,7 @@ static void wait_for_readers(struct cds_list_head *input_readers,
 				cds_list_move(&index->node, qsreaders);
 				break;
 			case URCU_READER_ACTIVE_OLD:
+				urcu_verif_point(URCU_VP_GP_ACTIVE_OLD, index);
 				/*
 				 * Old snapshot. Leaving node in
 				 * input_readers will make us busy-loop
@@ -202,6 +214,7 @@ static void wait_for_readers(struct cds_list_head *input_readers,
 		} else {
 			/* Temporarily unlock the registry lock. */
 			mutex_unlock(&rcu_registry_lock);
+			urcu_verif_point(URCU_VP_GP_REGISTRY_UNLOCKED, input_readers);
 			if (wait_loops >= RCU_QS_ACTIVE_ATTEMPTS) {
 				wait_gp();
 			} else {
@@ -375,18 +388,21 @@ void urcu_qsbr_synchronize_rcu(void)
 	 */
 	if (urcu_wait_add(&gp_waiters, &wait) != 0) {
 		/* Not first in queue: will be awakened by another thread. */
+		urcu_verif_point(URCU_VP_GP_MERGED, &wait);
 		urcu_adaptative_busy_wait(&wait);
 		goto gp_end;
 	}
 	/* We won't need to wake ourself up */
 	urcu_wait_set_state(&wait, URCU_WAIT_RUNNING);
 
+	urcu_verif_point(URCU_VP_GP_LEADER_PRE_LOCK, &wait);
 	mutex_lock(&rcu_gp_lock);
 
 	/*
 	 * Move all waiters into our local queue.
 	 */
 	urcu_move_waiters(&waiters, &gp_waiters);
+	urcu_verif_point(URCU_VP_GP_WAITERS_MOVED, &waiters);
 
 	mutex_lock(&rcu_registry_lock);
 
@@ -396,6 +412,7 @@ void urcu_qsbr_synchronize_rcu(void)
 	/* Increment current G.P. */
 	cmm_annotate_group_mem_release(&release_group, &urcu_qsbr_gp.ctr);
 	uatomic_store(&urcu_qsbr_gp.ctr, urcu_qsbr_gp.ctr + URCU_QSBR_GP_CTR);
+	urcu_verif_point(URCU_VP_GP_POST_FLIP, &urcu_qsbr_gp);
 
 	/*
 	 * Must commit urcu_qsbr_gp.ctr update to memory before waiting for
@@ -427,6 +444,7 @@ void urcu_qsbr_synchronize_rcu(void)
 out:
 	mutex_unlock(&rcu_registry_lock);
 	mutex_unlock(&rcu_gp_lock);
+	urcu_verif_point(URCU_VP_GP_PRE_WAKE_WAITERS, &waiters);
 	urcu_wake_all_waiters(&waiters);
 gp_end:
 	if (was_online)
@@ -484,6 +502,7 @@ void urcu_qsbr_register_thread(void)
 	urcu_posix_assert(!URCU_TLS(urcu_qsbr_reader).registered);
 	URCU_TLS(urcu_qsbr_reader).registered = 1;
 	cds_list_add(&URCU_TLS(urcu_qsbr_reader).node, &registry);
+	urcu_verif_point(URCU_VP_GP_REGISTER, &URCU_TLS(urcu_qsbr_reader));
 	mutex_unlock(&rcu_registry_lock);
 	_urcu_qsbr_thread_online();
 }
@@ -499,6 +518,7 @@ void urcu_qsbr_unregister_thread(void)
 	URCU_TLS(urcu_qsbr_reader).registered = 0;
 	mutex_lock(&rcu_registry_lock);
 	cds_list_del(&URCU_TLS(urcu_qsbr_reader).node);
+	urcu_verif_point(URCU_VP_GP_UNREGISTER, &URCU_TLS(urcu_qsbr_reader));
 	mutex_unlock(&rcu_registry_lock);
 }
 
